@@ -60,10 +60,16 @@ def _change_mask(m, depth=0):
     """(frame offset `at`, may contain the wrap-around comparison) for a mask of frames where an array differs from its roll."""
     if m is None or depth > 4:
         return None
+    if m.nolast:
+        # the entry of the last frame was switched off after the mask was built: no wrap-around comparison is left
+        inner = _change_mask(m.w(nolast=None), depth)
+        return (inner[0], False) if (inner is not None and inner[0] == 0) else inner
     if m.cmp is not None and m.cmp[0] == '!=':
         o, l, r, lt, rt = m.cmp
         for x, y, xt in ((l, r, lt), (r, l, rt)):
             if y is not None and y.rolled is not None and y.rolled[1] == xt and y.rolled[0] in (-1, 1):
+                if len(y.rolled) > 2 and y.axes is not None and len(y.axes) > 1 and y.rolled[2] != 'frame':
+                    return None  # rolled along another axis (or flattened): not a comparison of consecutive frames
                 return (0 if y.rolled[0] == -1 else 1, True)
         return None
     if m.bin is not None and m.bin[0] in ('|', '&'):
@@ -393,7 +399,10 @@ class NpCalls:
     def np_roll(self, interp, st, args, kwargs, node):
         x = as_array(args[0])
         sh = self.arg(args, kwargs, 1, 'shift')
-        return x.w(rolled=(cval(sh) if sh is not None and has_const(sh) else '?', interp.sx(node.args[0]) if node.args else None),
+        ax = axis_arg(args, kwargs, 2)
+        axname = x.axes[ax] if (x.axes is not None and isinstance(ax, int) and -len(x.axes) <= ax < len(x.axes)) else \
+            ('flat' if (x.axes is not None and len(x.axes) > 1) else None)
+        return x.w(rolled=(cval(sh) if sh is not None and has_const(sh) else '?', interp.sx(node.args[0]) if node.args else None, axname),
                    deps=self.deps_of(args, kwargs), store='fresh')
 
     def np_triu_indices_from(self, interp, st, args, kwargs, node):
@@ -619,7 +628,19 @@ class NpCalls:
                nonzero_of=mask, rollwrap=True if (idx == ('FRAME', 'roll') and not nowrap) else None)
         n = len(mask.axes) if mask.axes is not None else None
         if n is not None and n > 1:
-            return AV(ty='tuple', elts=[e.w(idx=None, at=None) for _ in range(n)], deps=d, nonzero_of=mask)
+            # one index array per axis of the mask: positions along the atom axis are atom indices; along the frame axis of a
+            # change mask they are the frames of a change
+            cm = _change_mask(mask) if (mask.bin is not None or mask.cmp is not None or mask.nolast) else None
+            elts = []
+            for k in range(n):
+                axn = mask.axes[k]
+                if axn == 'atom':
+                    elts.append(e.w(idx=('ATOM',), at=None, rollwrap=None))
+                elif axn == 'frame' and cm is not None:
+                    elts.append(e.w(idx=('FRAME', 'roll'), at=cm[0], rollwrap=True if cm[1] else None))
+                else:
+                    elts.append(e.w(idx=None, at=None, rollwrap=None))
+            return AV(ty='tuple', elts=elts, deps=d, nonzero_of=mask)
         return AV(ty='tuple', elts=[e], deps=d, nonzero_of=mask, open_tuple=True if n is None else None)
 
     def np_flatnonzero(self, interp, st, args, kwargs, node):
